@@ -720,6 +720,26 @@ func c10Escapes(c *drv.Ctx) {
 			}
 		}
 	}
+	// a backslash in front of any other character is no escape: the text is malformed
+	documented := "ABEFNRTVabefnrtv'\"[]-\\01234567"
+	for ch := rune(33); ch <= 126; ch++ {
+		if strings.ContainsRune(documented, ch) {
+			continue
+		}
+		for _, form := range []string{"'\\%c'", "\"\\%c\"", "[\\%c]", "[[\\%c]]", "'a\\%cb'", "[a\\%c-z]"} {
+			lit := fmt.Sprintf(form, ch)
+			text := "package g\ntype G Peg {}\nR0 <- " + lit + "\n"
+			c.Stats.Eval()
+			if c.Stats.Nontrivial(drv.Hash("undocumented-escape", lit)) {
+				c.Stats.Class("nt_undocumented_escape_must_be_rejected")
+			}
+			res := fe.Parse(text, false, false, false)
+			if res.Err == nil && res.Panic == "" && len(c.Violations) == 0 {
+				cs := &synCase{Text: text, Mutated: true}
+				c.AddViolation(drv.Violation{Property: "C10", Kind: "syntax-text", What: fmt.Sprintf("%s is accepted, although a backslash followed by %q is not one of the documented escapes", lit, string(ch)), Case: cs})
+			}
+		}
+	}
 	c.Stats.Extra["escape_table_exhaustive"] = true
 }
 
